@@ -94,6 +94,10 @@ class Model:
     # ---- C05 computable premise, primitives, plot ----
     def branch_faithful(self, a, b): return bool(self.raw([42, W.e_shape(a), W.e_shape(b)]))
     def diff_hyps(self, ja, jb, p): return bool(self.raw([48, W.e_jordan(ja), W.e_jordan(jb), W.e_point(p)]))
+    def convex_hyps(self, va, vb, p):
+        """C01_*_sound_convex on two vertex lists: (convex a, convex b, hyps |, hyps &, hyps -, poly_of va, poly_of vb)"""
+        r = self.raw([49, [W.e_point(q) for q in va], [W.e_point(q) for q in vb], W.e_point(p)])
+        return tuple(bool(x) for x in r[:5]) + (W.d_jordan(r[5]), W.d_jordan(r[6]))
     def sound_hyps(self, ja, jb, closed, inside, p): return bool(self.raw([47, W.e_jordan(ja), W.e_jordan(jb), bool(closed), bool(inside), W.e_point(p)]))
     def prim(self, kind, arg, center):
         """kind 0 square / 1 triangle / 2 regular_polygon(4); arg = pyarg wire form"""
